@@ -443,6 +443,7 @@ impl ParsedValue {
         values: &LocalesOrNamespaces,
         top_locale: &Key,
         default_locale: &Key,
+        extensions: &BTreeMap<Key, Key>,
         key_path: &KeyPath,
     ) -> Result<()> {
         let ForeignKey::NotSet(foreign_key_path, args) = &*foreign_key else {
@@ -450,7 +451,7 @@ impl ParsedValue {
             return Ok(());
         };
 
-        let Some(value) = values.get_value_at(top_locale, foreign_key_path) else {
+        let Some(mut value) = values.get_value_at(top_locale, foreign_key_path) else {
             return Err(Error::MissingForeignKey {
                 foreign_key: foreign_key_path.to_owned(),
                 locale: top_locale.clone(),
@@ -459,30 +460,57 @@ impl ParsedValue {
             .into());
         };
 
-        if matches!(value, ParsedValue::Default) {
+        // the foreign key point to an explicit default: take the value the key itself will use,
+        // so follow the same path as `DefaultedLocales`: the locale it inherits from if any, else (or on a loop) the default locale,
+        // skipping the locales that don't define the key.
+        let mut source_locale = top_locale;
+        let mut visited = vec![];
+        while matches!(value, ParsedValue::Default) {
             // this check is normally done in a later step for optimisations (Locale::make_builder_keys),
             // but we still need to do it here to avoid infinite loop
             // this case happen if a foreign key point to an explicit default in the default locale
             // pretty niche, but would cause a rustc stack overflow if not done.
-            if top_locale == default_locale {
+            if source_locale == default_locale {
                 return Err(Error::ExplicitDefaultInDefault(key_path.to_owned()).into());
-            } else {
-                return Self::resolve_foreign_key_inner(
-                    foreign_key,
-                    values,
-                    default_locale,
-                    default_locale,
-                    key_path,
-                );
+            }
+            visited.push(source_locale);
+            source_locale = match extensions.get(source_locale) {
+                Some(next) if !visited.contains(&next) => next,
+                _ => default_locale,
+            };
+            match values.get_value_at(source_locale, foreign_key_path) {
+                Some(next_value) => value = next_value,
+                // not defined here, continue (`value` is still `Default`)
+                None if source_locale != default_locale => {}
+                None => {
+                    return Err(Error::MissingForeignKey {
+                        foreign_key: foreign_key_path.to_owned(),
+                        locale: top_locale.clone(),
+                        key_path: key_path.to_owned(),
+                    }
+                    .into())
+                }
             }
         }
 
         // possibility that the foreign key must be resolved too
-        value.resolve_foreign_key(values, top_locale, default_locale, foreign_key_path)?;
+        value.resolve_foreign_key(
+            values,
+            source_locale,
+            default_locale,
+            extensions,
+            foreign_key_path,
+        )?;
 
         // possibility that args must resolve too
         for arg in args.values() {
-            arg.resolve_foreign_key(values, top_locale, default_locale, foreign_key_path)?;
+            arg.resolve_foreign_key(
+                values,
+                top_locale,
+                default_locale,
+                extensions,
+                foreign_key_path,
+            )?;
         }
 
         let value = value.populate(args, foreign_key_path, top_locale, key_path)?;
@@ -497,20 +525,27 @@ impl ParsedValue {
         values: &LocalesOrNamespaces,
         top_locale: &Key,
         default_locale: &Key,
+        extensions: &BTreeMap<Key, Key>,
         path: &KeyPath,
     ) -> Result<()> {
         match self {
             ParsedValue::Variable { .. } | ParsedValue::Literal(_) | ParsedValue::Default => Ok(()),
             ParsedValue::Subkeys(_) => Ok(()), // unreachable ?
             ParsedValue::Ranges(inner) => {
-                inner.resolve_foreign_keys(values, top_locale, default_locale, path)
+                inner.resolve_foreign_keys(values, top_locale, default_locale, extensions, path)
             }
             ParsedValue::Component { inner, .. } => {
-                inner.resolve_foreign_key(values, top_locale, default_locale, path)
+                inner.resolve_foreign_key(values, top_locale, default_locale, extensions, path)
             }
             ParsedValue::Bloc(bloc) => {
                 for value in bloc {
-                    value.resolve_foreign_key(values, top_locale, default_locale, path)?;
+                    value.resolve_foreign_key(
+                        values,
+                        top_locale,
+                        default_locale,
+                        extensions,
+                        path,
+                    )?;
                 }
                 Ok(())
             }
@@ -528,14 +563,21 @@ impl ParsedValue {
                     values,
                     top_locale,
                     default_locale,
+                    extensions,
                     path,
                 )
             }
             ParsedValue::Plurals(Plurals { forms, other, .. }) => {
                 for value in forms.values() {
-                    value.resolve_foreign_key(values, top_locale, default_locale, path)?;
+                    value.resolve_foreign_key(
+                        values,
+                        top_locale,
+                        default_locale,
+                        extensions,
+                        path,
+                    )?;
                 }
-                other.resolve_foreign_key(values, top_locale, default_locale, path)
+                other.resolve_foreign_key(values, top_locale, default_locale, extensions, path)
             }
         }
     }
